@@ -615,3 +615,121 @@ Proof.
       cbn [steps_total fold_right snd]. fold (steps_total t2). lia. }
     rewrite slice_app by lia. f_equal. lia.
 Qed.
+
+(* ---------- cdn.Chunk: the walk over the request plan ---------- *)
+
+Lemma xor_bytes_length_le : forall a k, (length (xor_bytes a k) <= length a)%nat.
+Proof. induction a as [|x a IH]; intros [|y k]; cbn; try lia. specialize (IH k). lia. Qed.
+
+Lemma steps_total_nonneg : forall steps cur, steps_ok cur steps -> 0 <= steps_total steps.
+Proof.
+  induction steps as [|[o l] t IH]; intros cur H; [cbn; lia|].
+  cbn in H. destruct H as (_ & (V1 & _) & _ & H2). unfold c_cdnMinChunk in V1. specialize (IH _ H2).
+  cbn [steps_total fold_right snd]. fold (steps_total t). lia.
+Qed.
+
+Lemma slice_len_gen l a b : 0 <= a -> zlen (slice l a b) = Z.max 0 (Z.min b (zlen l) - a).
+Proof. intros Ha. unfold slice, zlen. rewrite firstn_length, skipn_length. lia. Qed.
+
+Section ChunkProofs.
+Variable E : Z -> list Z.
+Variable ivz : Z.
+
+(* ANY CDN: the assembled chunk is never longer than the plan (= the requested limit) *)
+Lemma assemble_len answers : forall steps cur data d,
+  steps_ok cur steps -> assemble E ivz answers steps data = Some d ->
+  zlen d <= zlen data + steps_total steps.
+Proof.
+  induction steps as [|[o l] t IH]; intros cur data d Hok H.
+  - cbn in *. inversion H; subst. lia.
+  - pose proof (steps_total_nonneg _ _ Hok) as Hnn.
+    cbn [assemble] in H. cbn in Hok. destruct Hok as (-> & (V1 & _) & _ & Hok).
+    destruct (Z.gtb_spec (Z.of_nat (length (answers cur l))) l); [discriminate|].
+    pose proof (xor_bytes_length_le (answers cur l) (keystream E (S (length (answers cur l) / 16)) (iv_with_offset ivz cur) 0)) as Hx.
+    fold (decrypt E ivz cur (answers cur l)) in Hx.
+    pose proof (steps_total_nonneg _ _ Hok) as Hnt.
+    cbn [steps_total fold_right snd]. fold (steps_total t).
+    destruct (Z.ltb_spec (Z.of_nat (length (decrypt E ivz cur (answers cur l)))) l).
+    + inversion H; subst. unfold zlen. rewrite app_length. lia.
+    + specialize (IH _ _ _ Hok H). unfold zlen in *. rewrite app_length in IH. lia.
+Qed.
+
+Hypothesis E16 : forall z, length (E z) = 16%nat.
+Variable file : list Z.
+Notation size := (zlen file).
+(* an honest CDN: the file's bytes for the step, cut at the end of the file, CTR-encrypted *)
+Definition honest_answers (o l : Z) : list Z := decrypt E ivz o (slice file o (Z.min (o + l) size)).
+
+Lemma assemble_honest : forall steps cur data,
+  0 <= cur -> steps_ok cur steps ->
+  assemble E ivz honest_answers steps data = Some (data ++ slice file cur (Z.min (cur + steps_total steps) size)).
+Proof.
+  induction steps as [|[o l] t IH]; intros cur data Hc Hok.
+  - cbn. f_equal. unfold slice. replace (Z.to_nat (Z.min (cur + 0) size - cur)) with 0%nat by lia. rewrite app_nil_r. reflexivity.
+  - pose proof (steps_total_nonneg _ _ Hok) as Hnn.
+    cbn in Hok. destruct Hok as (-> & (V1 & _) & _ & Hok). unfold c_cdnMinChunk in V1.
+    pose proof (steps_total_nonneg _ _ Hok) as Hnt.
+    cbn [assemble steps_total fold_right snd]. fold (steps_total t).
+    set (g := slice file cur (Z.min (cur + l) size)).
+    assert (decrypt E ivz cur (honest_answers cur l) = g) as Hd by (apply decrypt_involutive; exact E16).
+    assert (length (honest_answers cur l) = length g) as Hal.
+    { unfold honest_answers. fold g. unfold decrypt. apply xor_bytes_length.
+      rewrite keystream_length by exact E16. pose proof (Nat.div_mod (length g) 16 ltac:(lia)).
+      pose proof (Nat.mod_upper_bound (length g) 16 ltac:(lia)). lia. }
+    assert (zlen g = Z.max 0 (Z.min (Z.min (cur + l) size) size - cur)) as Hgl by (unfold g; apply slice_len_gen; lia).
+    rewrite Hal, Hd. fold (zlen g). rewrite Hgl.
+    destruct (Z.gtb_spec (Z.max 0 (Z.min (Z.min (cur + l) size) size - cur)) l); [lia|].
+    destruct (Z.ltb_spec (Z.max 0 (Z.min (Z.min (cur + l) size) size - cur)) l) as [Hs|Hs].
+    + (* the file ends inside (or before) this step *)
+      do 2 f_equal. unfold g. f_equal. lia.
+    + rewrite (IH (cur + l) (data ++ g) ltac:(lia) Hok). rewrite <- app_assoc. do 2 f_equal.
+      unfold g. rewrite Z.min_l by lia. rewrite slice_app by lia. f_equal. lia.
+Qed.
+
+Variable sha : list Z -> list Z.
+Variable hash_for : Z -> option hwin.
+Variable fetch : hwin -> list Z.
+
+(* honest CDN, honest hash list covering the file: cdn.Chunk returns exactly the file's bytes for the
+   requested range, cut at the end of the file *)
+Theorem cdn_chunk_honest offset limit :
+  (forall o, 0 <= o < size ->
+     exists w, hash_for o = Some w /\ 0 <= w_off w <= o /\ o < w_off w + w_limit w /\ w_hash w = sha (gen file w)) ->
+  (forall w, fetch w = gen file w) ->
+  0 <= offset < size -> 0 < limit -> offset mod c_cdnMinChunk = 0 -> limit mod c_cdnMinChunk = 0 ->
+  cdn_chunk E ivz honest_answers sha hash_for fetch offset limit = Some (slice file offset (Z.min (offset + limit) size)).
+Proof.
+  intros Hcov Hf Ho Hl Hom Hlm. unfold cdn_chunk.
+  destruct (build_plan_spec offset limit ltac:(lia) Hl Hom Hlm) as (steps & Hp & Hok & Htot).
+  rewrite Hp, (assemble_honest steps offset [] ltac:(lia) Hok), Htot. cbn [app].
+  apply (verify_chunk_honest sha hash_for fetch file Hcov Hf offset limit Ho Hl).
+Qed.
+
+(* ANY CDN: what cdn.Chunk returns is at most [limit] bytes long and every byte of it lies in a
+   hash-verified window *)
+Theorem cdn_chunk_sound answers offset limit d :
+  (forall o w, hash_for o = Some w -> w_off w <= o) ->
+  cdn_chunk E ivz answers sha hash_for fetch offset limit = Some d ->
+  zlen d <= limit /\ forall x, offset <= x < offset + zlen d -> cov sha hash_for d offset x.
+Proof.
+  intros Hcont H. unfold cdn_chunk in H.
+  destruct (build_plan offset limit) as [|  |steps] eqn:Hp; try discriminate.
+  destruct (assemble E ivz answers steps []) as [data|] eqn:Ha; [|discriminate].
+  destruct (verify_chunk_sound sha hash_for fetch Hcont _ _ _ _ H) as [Hl Hc]. rewrite <- Hl in Hc.
+  split; [|exact Hc].
+  (* the plan of an accepted range sums to the limit *)
+  assert (steps_ok offset steps /\ steps_total steps = limit) as [Hok Htot].
+  { unfold build_plan in Hp.
+    destruct (plan_bad_limit limit) eqn:B1; [discriminate|]. destruct (plan_bad_offset offset) eqn:B2; [discriminate|].
+    destruct (plan_unaligned_offset offset) eqn:B3; [discriminate|]. destruct (plan_unaligned_limit limit) eqn:B4; [discriminate|].
+    unfold plan_bad_limit, plan_bad_offset, plan_unaligned_offset, plan_unaligned_limit, c_cdnMinChunk in *.
+    apply Z.leb_gt in B1. apply Z.ltb_ge in B2. apply negb_false_iff, Z.eqb_eq in B3. apply negb_false_iff, Z.eqb_eq in B4.
+    rewrite Z.rem_mod_nonneg in B3, B4 by lia.
+    destruct (build_plan_spec offset limit B2 B1 B3 B4) as (s' & Hp' & Hok & Htot).
+    unfold build_plan, plan_bad_limit, plan_bad_offset, plan_unaligned_offset, plan_unaligned_limit, c_cdnMinChunk in Hp'.
+    destruct (Z.leb_spec limit 0); [lia|]. destruct (Z.ltb_spec offset 0); [lia|].
+    rewrite !Z.rem_mod_nonneg in Hp' by lia. rewrite B3, B4 in Hp'. cbn [Z.eqb negb] in Hp'.
+    unfold c_cdnMinChunk in Hp. rewrite Hp in Hp'. inversion Hp'; subst. auto. }
+  pose proof (assemble_len answers steps offset [] data Hok Ha) as Hlen. unfold zlen in *. cbn [length] in Hlen. lia.
+Qed.
+End ChunkProofs.
